@@ -39,6 +39,45 @@ class C01(E1Prop):
                'wcommit': 0.2, 'restart': 0.15}
     GEN_KW = {'ci_green_bias': 0.75}
 
+    def next_op(self, w, rng, step, nsteps):
+        from .. import ops
+        if step == 0:
+            self.script = []
+            dests = ops.dest_branches(w.cfg)
+            if len(dests) >= 2 and rng.random() < 0.3:
+                # story: A conflicts on its integration branches and is
+                # resolved by hand; meanwhile B lands on A's destination, so
+                # that A's own merge is not a fast-forward
+                d = rng.choice(dests[:-1])
+                seq = [{'op': 'open_pr', 'actor': 'alice',
+                        'src': 'bugfix/TEST-801', 'dst': d,
+                        'kind': rng.choice(['ver', 'ver', 'new'])},
+                       {'op': 'eval', 'p': 0}]
+                for i in range(rng.choice([1, 2, 3])):
+                    seq += [{'op': 'resolve_conflict', 'p': 0,
+                             'side': rng.choice(['theirs', 'ours'])},
+                            {'op': 'eval', 'p': 0}]
+                seq += [{'op': 'open_pr', 'actor': 'bob',
+                         'src': 'feature/TEST-802', 'dst': d,
+                         'kind': 'new'},
+                        {'op': 'eval', 'p': 1},
+                        {'op': 'ci_green_all', 'which': ['src', 'w']},
+                        {'op': 'eval', 'p': 1},
+                        {'op': 'ci_green_all', 'which': ['src', 'w', 'q']},
+                        {'op': 'deliver_all'},
+                        {'op': 'eval', 'p': 0},
+                        {'op': 'ci_green_all', 'which': ['src', 'w', 'q']},
+                        {'op': 'eval', 'p': 0},
+                        {'op': 'deliver_all'}]
+                for o in seq:
+                    o['dt'] = rng.choice([1, 5, 30])
+                for i in range(rng.randint(0, 2)):
+                    seq.insert(rng.randrange(3, len(seq)), self.gen.next(w))
+                self.script = seq
+        if getattr(self, 'script', None):
+            return self.script.pop(0)
+        return self.gen.next(w)
+
     def check_job(self, w, rec):
         check_chain(w, rec)
         moved = [r for r in rec['refs_after']
